@@ -239,6 +239,11 @@ func drain(s core.Schedule, max int) (times []time.Time, finish time.Time, err e
 func checkSegment(from, to float64, durNs int64, offs []int64, what string) error {
 	I := lineIntegral(from, to, durNs, durNs)
 	lo, hi, _ := allowedCounts(I)
+	if from == to && I.IsInt() {
+		// constant rate whose integral over the duration is EXACTLY a whole number (55 rps for 1 s, 100 rps for
+		// 570 ms): rate x duration has no rounding to hide behind, the profile holds exactly that many operations
+		lo, hi = I.Num().Int64(), I.Num().Int64()
+	}
 	n := int64(len(offs))
 	if n < lo || n > hi {
 		return fmt.Errorf("%s: %d tokens, integral of the configured rate over the duration is %s (allowed %d..%d)",
